@@ -125,6 +125,7 @@ structure InTx (S : Server) (c : ConState) (t : Txn) (p : PSpec) : Prop where
   sorted   : (t.sps.map (·.id)).Pairwise (· < ·)
   spsLog   : ∀ x ∈ t.sps, dictGet c.log x.id = some x ∧ x.tx = c.cur
   curKey   : t.current.tx = c.cur
+  curBound : c.cur ≤ c.count
   stSorted : (S.sps.map (·.spid)).Pairwise (· < ·)
   stLog    : ∀ q ∈ S.sps, q.spid ≤ c.count ∧ ∃ sp, dictGet c.log q.spid = some sp ∧
                sp.name = some q.name ∧ sp.tx = c.cur ∧ sp.pl.aliases = q.aliases ∧ sp.pl.config = q.config
@@ -146,8 +147,8 @@ structure InTx (S : Server) (c : ConState) (t : Txn) (p : PSpec) : Prop where
 /-- … after `compile_in_tx` has applied the session view and synchronised to `txid`. -/
 structure NTx (S : Server) (c : ConState) (t : Txn) (p : PSpec) : Prop extends InTx S c t p where
   idEq   : t.id = S.txid
-  viewA  : t.current.pl.aliases = S.txAliases
-  viewC  : t.current.pl.config = S.txConfig
+  viewA  : p.failed = false → t.current.pl.aliases = S.txAliases
+  viewC  : p.failed = false → t.current.pl.config = S.txConfig
   curPl  : p.failed = false → t.current.pl = p.cur
 
 /-- The coupling between the server (with the compiler state it keeps) and the spec. -/
@@ -160,38 +161,47 @@ theorem withView_self (pl : Payload) : withView pl pl.aliases pl.config = pl := 
 
 /-! ### `compile_in_tx` up to the statement: session view + `sync_tx` -/
 
+theorem getTx_setTx_ne (c : ConState) (k k' : Nat) (t : Txn) (h : k ≠ k') :
+    getTx (setTx c k' t) k = getTx c k := by
+  have : (k == k') = false := by simp [h]
+  simp [getTx, setTx, List.lookup, this]
+
 theorem applySession_eq (c : ConState) (t : Txn) (h : curTx c = some t) (ra rc : Nat) :
     ∃ c1, applySession c ra rc = .ok c1 ∧
       curTx c1 = some { t with current := { t.current with pl := withView t.current.pl ra rc } } ∧
-      c1.cur = c.cur ∧ c1.log = c.log ∧ c1.count = c.count := by
+      c1.cur = c.cur ∧ c1.log = c.log ∧ c1.count = c.count ∧
+      (∀ k, k ≠ c.cur → getTx c1 k = getTx c k) := by
   unfold applySession
   simp only [h]
   by_cases ha : t.current.pl.aliases = ra <;> by_cases hc : t.current.pl.config = rc
-  · refine ⟨c, ?_, ?_, rfl, rfl, rfl⟩
+  · refine ⟨c, ?_, ?_, rfl, rfl, rfl, fun _ _ => rfl⟩
     · simp [ha, hc, h]
     · rw [h]; congr 1
       cases t with | mk id imp cur s0 sps =>
       cases cur with | mk cid cn cpl ctx =>
       cases cpl; simp_all [withView]
-  · refine ⟨setTx c c.cur { t with current := { t.current with pl := { t.current.pl with config := rc } } }, ?_, ?_, rfl, rfl, rfl⟩
+  · refine ⟨setTx c c.cur { t with current := { t.current with pl := { t.current.pl with config := rc } } }, ?_, ?_, rfl, rfl, rfl, ?_⟩
     · simp [ha, hc, h]
     · simp only [curTx_setTx]; congr 2
       cases t with | mk id imp cur s0 sps =>
       cases cur with | mk cid cn cpl ctx =>
       cases cpl; simp_all [withView]
-  · refine ⟨setTx c c.cur { t with current := { t.current with pl := { t.current.pl with aliases := ra } } }, ?_, ?_, rfl, rfl, rfl⟩
+    · intro k hk; simp [getTx_setTx_ne, hk]
+  · refine ⟨setTx c c.cur { t with current := { t.current with pl := { t.current.pl with aliases := ra } } }, ?_, ?_, rfl, rfl, rfl, ?_⟩
     · simp [ha, hc]
     · simp only [curTx_setTx]; congr 2
       cases t with | mk id imp cur s0 sps =>
       cases cur with | mk cid cn cpl ctx =>
       cases cpl; simp_all [withView]
+    · intro k hk; simp [getTx_setTx_ne, hk]
   · refine ⟨setTx (setTx c c.cur { t with current := { t.current with pl := { t.current.pl with aliases := ra } } }) c.cur
-        { t with current := { t.current with pl := { t.current.pl with aliases := ra, config := rc } } }, ?_, ?_, rfl, rfl, rfl⟩
+        { t with current := { t.current with pl := { t.current.pl with aliases := ra, config := rc } } }, ?_, ?_, rfl, rfl, rfl, ?_⟩
     · simp [ha, hc]
     · have := curTx_setTx (setTx c c.cur { t with current := { t.current with pl := { t.current.pl with aliases := ra } } })
         { t with current := { t.current with pl := { t.current.pl with aliases := ra, config := rc } } }
       simp only [setTx_cur] at this
       rw [this]; rfl
+    · intro k hk; simp [getTx_setTx_ne, hk]
 
 
 /-- the `sync` clause of `InTx`, named -/
@@ -226,6 +236,7 @@ theorem InTx.transport {S : Server} {c : ConState} {t : Txn} {p : PSpec} (h : In
       sorted := by rw [hsps]; exact h.sorted
       spsLog := ?_
       curKey := by rw [hck, hk]
+      curBound := by rw [hk]; exact Nat.le_trans h.curBound hcount
       stSorted := by rw [hS1]; exact h.stSorted
       stLog := ?_
       live := by rw [hsps, hS1]; exact h.live
@@ -256,14 +267,14 @@ theorem compile_prefix {S : Server} {c : ConState} {t : Txn} {p : PSpec} (h : In
     ∃ c2 t2, NTx S c2 t2 p ∧
       compileInTxWith c S.txid S.txAliases S.txConfig er body esc =
         { st := (body c2).1, against := some t2.current.pl, res := (body c2).2 } := by
-  obtain ⟨c1, hap, hc1, hk1, hl1, hn1⟩ := applySession_eq c t h.inv1.cur S.txAliases S.txConfig
+  obtain ⟨c1, hap, hc1, hk1, hl1, hn1, _⟩ := applySession_eq c t h.inv1.cur S.txAliases S.txConfig
   let t1 : Txn := { t with current := { t.current with pl := withView t.current.pl S.txAliases S.txConfig } }
   rcases h.sync with ⟨hid, hpl⟩ | ⟨hid, sp, hsp, hsptx, hle1, hle2, hva, hvc, hpl⟩
   · -- already at txid
     have hI : InTx S c1 t1 p := h.transport hc1 (by omega) hk1 (fun i x hx _ => by rw [hl1]; exact hx)
       rfl rfl rfl h.curKey ⟨rfl, rfl, rfl, rfl, rfl, rfl⟩ ⟨rfl, rfl, rfl⟩ h.pfail
       (Or.inl ⟨hid, fun hf => by simpa [t1, withView_withView] using hpl hf⟩)
-    refine ⟨c1, t1, ⟨hI, hid, rfl, rfl, fun hf => hpl hf⟩, ?_⟩
+    refine ⟨c1, t1, ⟨hI, hid, fun _ => rfl, fun _ => rfl, fun hf => hpl hf⟩, ?_⟩
     unfold compileInTxWith
     simp only [hap, hc1]
     have hne : (t.id != S.txid) = false := by simp [hid]
@@ -305,7 +316,7 @@ theorem compile_prefix {S : Server} {c : ConState} {t : Txn} {p : PSpec} (h : In
         · exact hle1 y hy
         · exact hle2 q hq
       simp [hile, hx]
-    refine ⟨c2, t2, ⟨hI, rfl, hva, hvc, fun hf => hpl hf⟩, ?_⟩
+    refine ⟨c2, t2, ⟨hI, rfl, fun _ => hva, fun _ => hvc, fun hf => hpl hf⟩, ?_⟩
     unfold compileInTxWith
     simp only [hap, hc1]
     have hne : (t.id != S.txid) = true := by simp [hid]
@@ -489,8 +500,8 @@ theorem stepOk_upd_inTx {S : Server} {c : ConState} {t : Txn} {p : PSpec}
       · have hbf' : e.bf = false := by simpa using hbf
         have hspec : p.step e = ({ p with cur := u.apply p.cur }, .ok) := by
           unfold PSpec.step; simp [h.pin, hf', hs, hcf', hbf']
-        have hva := hN.viewA
-        have hvc := hN.viewC
+        have hva := hN.viewA hf'
+        have hvc := hN.viewC hf'
         cases u with
         | schema us gs =>
           have hI : InTx { S with last := some c3 } c3 { t2 with current := X }
@@ -566,7 +577,7 @@ theorem stepOk_query_inTx {S : Server} {c : ConState} {t : Txn} {p : PSpec}
           unfold PSpec.step; simp [h.pin, hf', hs, hcf', hbf']
         have hI : InTx { S with last := some c2 } c2 t2 p :=
           hN.sameState ⟨rfl, rfl, rfl, rfl, rfl, rfl⟩ rfl ⟨rfl, rfl, rfl⟩ h.pfail
-            (fun _ => by rw [← hN.viewA, ← hN.viewC, withView_self]; exact hcur)
+            (fun _ => by rw [← hN.viewA hf', ← hN.viewC hf', withView_self]; exact hcur)
         refine stepOk_of _ hstep { S with last := some c2 } .ok (some t2.current.pl)
           ?_ ?_ ?_ _ _ hspec (rel_inTx rfl hI) rfl (fun _ _ => hexp hf') <;>
           simp [compileStmt, hcf', afterCompile, Server.run, her, Server.execute, Server.start, hbf',
@@ -577,6 +588,34 @@ theorem rel_out (S : Server) (hin : S.inTx = false) (he : S.txErr = false) (hsps
     Rel S (PSpec.out ⟨S.uschema, S.gschema, S.aliases, S.config⟩) := by
   unfold Rel; simp [hin, he, hsps]
 
+/-- ROLLBACK on a synchronised state (no backend failure in a healthy block). -/
+theorem rollback_core {S : Server} {c2 : ConState} {t2 : Txn} {p : PSpec} (hN : NTx S c2 t2 p)
+    (e : SEv) (hs : e.stmt = .rollback) (hbf : p.failed = false → e.bf = false)
+    (hstep : S.step e = afterCompile S e (some t2.current.pl) (compileStmt c2 S.txErr e.cf .rollback)) :
+    StepOk S p e := by
+  have hbase := hN.base
+  by_cases hf : p.failed = true
+  · have her : S.txErr = true := by rw [← hN.pfail]; exact hf
+    have hspec : p.step e = (PSpec.out p.base, .ok) := by
+      unfold PSpec.step; simp [hN.pin, hf, hs]
+    refine stepOk_of _ hstep (({ S with last := some (initCurrentTx c2 t2.state0.pl) } : Server).resetTx)
+      .ok (some t2.current.pl) ?_ ?_ ?_ _ _ hspec ?_ rfl
+      (fun hh => by simp [PSpec.healthy, hN.pin, hf] at hh) <;>
+      try simp [compileStmt, rollbackTx, hN.inv1.cur, afterCompile, Server.run, her]
+    rw [hbase]; exact rel_out _ rfl rfl rfl
+  · have hf' : p.failed = false := by simpa using hf
+    have hbf' := hbf hf'
+    have her : S.txErr = false := by rw [← hN.pfail]; exact hf'
+    have hspec : p.step e = (PSpec.out p.base, .ok) := by
+      unfold PSpec.step; simp [hN.pin, hf', hs, hbf']
+    refine stepOk_of _ hstep
+      (({ S with last := some (initCurrentTx c2 t2.state0.pl), txAliases := t2.state0.pl.aliases } : Server).resetTx)
+      .ok (some t2.current.pl) ?_ ?_ ?_ _ _ hspec ?_ rfl
+      (fun _ _ => by simp [PSpec.exposed, hN.pin, hN.curPl hf']) <;>
+      try simp [compileStmt, rollbackTx, hN.inv1.cur, afterCompile, Server.run, her, Server.execute,
+        Server.start, hbf', Server.onSuccess, hN.sin, Server.setAliases]
+    rw [hbase]; exact rel_out _ rfl rfl rfl
+
 theorem stepOk_rollback_inTx {S : Server} {c : ConState} {t : Txn} {p : PSpec}
     (hl : S.last = some c) (h : InTx S c t p) (e : SEv) (hs : e.stmt = .rollback)
     (hcov : p.covers e = true) : StepOk S p e := by
@@ -586,27 +625,7 @@ theorem stepOk_rollback_inTx {S : Server} {c : ConState} {t : Txn} {p : PSpec}
     unfold PSpec.covers at hcov
     simp only [hs, Bool.and_true] at hcov
     simpa using hcov
-  have hspec : p.step e = (PSpec.out p.base, .ok) := by
-    unfold PSpec.step
-    by_cases hf : p.failed = true <;> simp [h.pin, hf, hs, hbf]
-  have hbase := h.base
-  by_cases hf : p.failed = true
-  · have her : S.txErr = true := by rw [← h.pfail]; exact hf
-    refine stepOk_of _ hstep (({ S with last := some (initCurrentTx c2 t2.state0.pl) } : Server).resetTx)
-      .ok (some t2.current.pl) ?_ ?_ ?_ _ _ hspec ?_ rfl
-      (fun hh => by simp [PSpec.healthy, h.pin, hf] at hh) <;>
-      try simp [compileStmt, rollbackTx, hN.inv1.cur, afterCompile, Server.run, her]
-    rw [hbase]; exact rel_out _ rfl rfl rfl
-  · have hf' : p.failed = false := by simpa using hf
-    have her : S.txErr = false := by rw [← h.pfail]; exact hf'
-    refine stepOk_of _ hstep
-      (({ S with last := some (initCurrentTx c2 t2.state0.pl), txAliases := t2.state0.pl.aliases } : Server).resetTx)
-      .ok (some t2.current.pl) ?_ ?_ ?_ _ _ hspec ?_ rfl
-      (fun _ _ => by simp [PSpec.exposed, h.pin, hN.curPl hf']) <;>
-      try simp [compileStmt, rollbackTx, hN.inv1.cur, afterCompile, Server.run, her, Server.execute,
-        Server.start, hbf, Server.onSuccess, h.sin, Server.setAliases]
-    rw [hbase]; exact rel_out _ rfl rfl rfl
-
+  exact rollback_core hN e hs (fun _ => hbf) hstep
 
 theorem stepOk_commit_inTx {S : Server} {c : ConState} {t : Txn} {p : PSpec}
     (hl : S.last = some c) (h : InTx S c t p) (e : SEv) (hs : e.stmt = .commit)
@@ -670,7 +689,7 @@ theorem stepOk_commit_inTx {S : Server} {c : ConState} {t : Txn} {p : PSpec}
       refine stepOk_of _ hstep S3 .ok (some t2.current.pl) rfl rfl rfl _ _ hspec ?_ rfl (fun _ _ => hexp)
       have : p.cur = ⟨S3.uschema, S3.gschema, S3.aliases, S3.config⟩ := by
         show p.cur = ⟨uu.getD S.uschema, ug.getD S.gschema, t2.current.pl.aliases, S.txConfig⟩
-        rw [huu, hug, ← hN.viewC, hcur]
+        rw [huu, hug, ← hN.viewC hf', hcur]
       rw [this]
       exact rel_out S3 rfl rfl rfl
 
@@ -929,6 +948,7 @@ theorem stepOk_declare_inTx {S : Server} {c : ConState} {t : Txn} {p : PSpec}
           sorted := ?_
           spsLog := ?_
           curKey := hN.curKey
+          curBound := Nat.le_trans hN.curBound (Nat.le_succ _)
           stSorted := ?_
           stLog := ?_
           live := ?_
@@ -941,7 +961,7 @@ theorem stepOk_declare_inTx {S : Server} {c : ConState} {t : Txn} {p : PSpec}
           pfail := hN.pfail
           sync := Or.inl ⟨hN.idEq, fun _ => by
             show withView t2.current.pl S.txAliases S.txConfig = p.cur
-            rw [← hN.viewA, ← hN.viewC, withView_self]; exact hcur⟩ }
+            rw [← hN.viewA hf', ← hN.viewC hf', withView_self]; exact hcur⟩ }
       · -- nodup
         show ((t2.sps ++ [sp]).map (·.id)).Nodup
         simp only [List.map_append, List.map_cons, List.map_nil]
@@ -994,7 +1014,7 @@ theorem stepOk_declare_inTx {S : Server} {c : ConState} {t : Txn} {p : PSpec}
           exact ⟨by show y.spid ≤ spid; omega, sp', by rw [hlog _ h1]; exact h2, h3, h4, h5, h6⟩
         · simp only [List.mem_cons, List.not_mem_nil, or_false] at hy
           rw [hy]
-          exact ⟨Nat.le_refl _, sp, hlogsp, rfl, hN.curKey, hN.viewA, hN.viewC⟩
+          exact ⟨Nat.le_refl _, sp, hlogsp, rfl, hN.curKey, hN.viewA hf', hN.viewC hf'⟩
       · -- live
         intro x hx
         rcases List.mem_append.mp hx with hx | hx
@@ -1112,6 +1132,7 @@ theorem stepOk_release_inTx {S : Server} {c : ConState} {t : Txn} {p : PSpec}
             sorted := ?_
             spsLog := fun x hx => hN.spsLog x (hAsub x hx)
             curKey := hN.curKey
+            curBound := hN.curBound
             stSorted := hN.stSorted
             stLog := hN.stLog
             live := fun x hx => hN.live x (hAsub x hx)
@@ -1124,7 +1145,7 @@ theorem stepOk_release_inTx {S : Server} {c : ConState} {t : Txn} {p : PSpec}
             pfail := hN.pfail
             sync := Or.inl ⟨hN.idEq, fun _ => by
               show withView t2.current.pl S.txAliases S.txConfig = p.cur
-              rw [← hN.viewA, ← hN.viewC, withView_self]; exact hcur⟩ }
+              rw [← hN.viewA hf', ← hN.viewC hf', withView_self]; exact hcur⟩ }
         · have : (A.map (·.id)).Sublist (t2.sps.map (·.id)) := by
             rw [hsps]; exact (List.sublist_append_left A (f :: B)).map _
           exact this.nodup hN.inv1.nodup
@@ -1146,11 +1167,15 @@ theorem stepOk_release_inTx {S : Server} {c : ConState} {t : Txn} {p : PSpec}
       exact rel_inTx rfl hI
 
 
-theorem stepOk_rollbackTo_inTx {S : Server} {c : ConState} {t : Txn} {p : PSpec}
-    (hl : S.last = some c) (h : InTx S c t p) (e : SEv) (n : Nat) (hs : e.stmt = .rollbackTo n) :
-    StepOk S p e := by
-  obtain ⟨c2, t2, hN, hstep⟩ := step_inTx_unfold hl h e
-  rw [hs] at hstep
+/-- ROLLBACK TO on a synchronised state: either it is accepted and the coupling is re-established,
+    or the compiler refuses it (no such savepoint) and so does the spec. -/
+theorem rollbackTo_core {S : Server} {c2 : ConState} {t2 : Txn} {p : PSpec} (hN : NTx S c2 t2 p)
+    (e : SEv) (n : Nat) (hs : e.stmt = .rollbackTo n)
+    (hstep : S.step e = afterCompile S e (some t2.current.pl)
+      (compileStmt c2 S.txErr e.cf (.rollbackTo n))) :
+    StepOk S p e ∨
+    (∃ c3 err, S.step e = afterCompile S e (some t2.current.pl) (c3, .error err) ∧
+      p.step e = ({ p with failed := true }, .rejected)) := by
   have himp : t2.implicit = false := hN.expl
   have hsplit := rollback_split n t2.sps hN.inv1.nodup
   cases hsc : scanRollback n t2.sps.reverse with
@@ -1159,15 +1184,15 @@ theorem stepOk_rollbackTo_inTx {S : Server} {c : ConState} {t : Txn} {p : PSpec}
     have : compileStmt c2 S.txErr e.cf (.rollbackTo n) = (c2, .error .noSavepoint) := by
       simp [compileStmt, rollbackToSavepoint, hN.inv1.cur, himp, hsc]
     rw [this] at hstep
-    refine stepOk_rejected hl h e _ _ _ hstep ?_
+    refine Or.inr ⟨_, _, hstep, ?_⟩
     have hff : findFrame n p.frames = none := by
       rw [← hN.frames]
       exact findFrame_none_of n _ (fun x hx => by
         have hx' := List.mem_reverse.mp hx
         exact named_ne hN.inv1 (fun y hy => hy) hsplit x hx')
     by_cases hf : p.failed = true
-    · rw [failed_self p hf]; unfold PSpec.step; simp [h.pin, hf, hs, hff]
-    · unfold PSpec.step; simp [h.pin, hf, hs, hff, PSpec.abort]
+    · rw [failed_self p hf]; unfold PSpec.step; simp [hN.pin, hf, hs, hff]
+    · unfold PSpec.step; simp [hN.pin, hf, hs, hff, PSpec.abort]
   | some v =>
     obtain ⟨f, ids⟩ := v
     rw [hsc] at hsplit
@@ -1236,19 +1261,20 @@ theorem stepOk_rollbackTo_inTx {S : Server} {c : ConState} {t : Txn} {p : PSpec}
       have hspec : p.step e = (p', .ok) := by
         unfold PSpec.step
         by_cases hf : p.failed = true
-        · simp [h.pin, hf, hs, hff, p', frameOf]
+        · simp [hN.pin, hf, hs, hff, p', frameOf]
         · have hf' : p.failed = false := by simpa using hf
-          simp [h.pin, hf', hs, hff, p', frameOf]
+          simp [hN.pin, hf', hs, hff, p', frameOf]
       have hac : afterCompile S e (some t2.current.pl) (compileStmt c2 S.txErr e.cf (.rollbackTo n)) =
           (S3, { outcome := .ok, against := some t2.current.pl,
                  unit := some { spRollback := true, spName := some n, aliases := some f.pl.aliases } }) := by
         simp [compileStmt, rollbackToSavepoint, hN.inv1.cur, himp, hsc, hpop, afterCompile, Server.run,
           Server.rollbackToSp, hpo, hl', S3, c3, t3]
       rw [hac] at hstep
+      refine Or.inl ?_
       refine stepOk_of _ hstep S3 .ok (some t2.current.pl) rfl rfl rfl _ _ hspec ?_ rfl
         (fun hh _ => by
-          have hf' : p.failed = false := by simpa [PSpec.healthy, h.pin] using hh
-          simp [PSpec.exposed, h.pin, hN.curPl hf'])
+          have hf' : p.failed = false := by simpa [PSpec.healthy, hN.pin] using hh
+          simp [PSpec.exposed, hN.pin, hN.curPl hf'])
       have hsubl : ((A ++ [f]).map (·.id)).Sublist (t2.sps.map (·.id)) := by
         rw [hsps]
         exact (List.Sublist.append (List.Sublist.refl A) (List.Sublist.cons_cons f (List.nil_sublist B))).map _
@@ -1277,6 +1303,7 @@ theorem stepOk_rollbackTo_inTx {S : Server} {c : ConState} {t : Txn} {p : PSpec}
             sorted := hN.sorted.sublist hsubl
             spsLog := fun x hx => hN.spsLog x (hAfsub x hx)
             curKey := hflog.2
+            curBound := hN.curBound
             stSorted := hN.stSorted.sublist hsubS
             stLog := fun y hy => hN.stLog y (hSsub y hy)
             live := ?_
@@ -1328,6 +1355,15 @@ theorem stepOk_rollbackTo_inTx {S : Server} {c : ConState} {t : Txn} {p : PSpec}
             · intro x hx; show x.id ≤ q.spid; rw [hqid]; exact hle3 x hx
       exact rel_inTx rfl hI
 
+
+theorem stepOk_rollbackTo_inTx {S : Server} {c : ConState} {t : Txn} {p : PSpec}
+    (hl : S.last = some c) (h : InTx S c t p) (e : SEv) (n : Nat) (hs : e.stmt = .rollbackTo n) :
+    StepOk S p e := by
+  obtain ⟨c2, t2, hN, hstep⟩ := step_inTx_unfold hl h e
+  rw [hs] at hstep
+  rcases rollbackTo_core hN e n hs hstep with hok | ⟨c3, err, hst, hsp⟩
+  · exact hok
+  · exact stepOk_rejected hl h e _ _ _ hst hsp
 
 /-! ### one statement outside a transaction -/
 
@@ -1410,6 +1446,7 @@ theorem stepOk_out {S : Server} {p : PSpec} (hR : Rel S p) (hin : S.inTx = false
             sorted := by simp [t3]
             spsLog := by simp [t3]
             curKey := by simp [t3, c3, ConState.init, initCurrentTx]
+            curBound := by simp [c3, ConState.init, initCurrentTx]
             stSorted := by simp [S3, hsps]
             stLog := by simp [S3, hsps]
             live := by simp [t3]
